@@ -135,6 +135,9 @@ func RunC17(s *sim.Sim, res *runner.Result) {
 		}
 		c.roots = append(c.roots, fmt.Sprintf("root%d", i))
 	}
+	// some runs: the user installs dependencies by hand, under names of their
+	// own, also from a mirror registry (same repository path)
+	byHand := t.Next(3) == 0
 	chaos := 60 + t.Next(240)
 	kit.DrawFaults(s, []sim.Outcome{sim.ErrBefore, sim.ErrAfter, sim.Conflict, sim.CrashBefore, sim.CrashAfter})
 	var wl []string
@@ -183,6 +186,10 @@ func RunC17(s *sim.Sim, res *runner.Result) {
 			acts = append(acts, sim.Action{Key: "restart pkg", Weight: 40, Run: func() { w.Restart(); hook() }})
 		}
 		acts = append(acts, sim.Action{Key: "registry: a new tag is published", Weight: 2, Run: func() { c.publishTag(t) }})
+		if byHand {
+			acts = append(acts, sim.Action{Key: "user installs a dependency by hand under a name of their own", Weight: 1, Run: func() { c.installByHand(t, false) }})
+			acts = append(acts, sim.Action{Key: "user installs a mirror of a dependency (same path, another registry)", Weight: 1, Run: func() { c.installByHand(t, true) }})
+		}
 		for i, rn := range c.roots {
 			i, rn := i, rn
 			if w.Store.Peek(simapi.ObjKey{Group: PkgGK["Configuration"].Group, Kind: "Configuration", Name: rn}) != nil {
@@ -239,6 +246,36 @@ func (c *c17) switchRoot(i int, rn string) {
 	_ = unstructured.SetNestedField(u.Object, next, "spec", "package")
 	if c.w.Direct.Update(ctx, u) == nil {
 		c.w.S.Probe("root-package-moved-to-other-version")
+	}
+}
+
+func (c *c17) installByHand(t *sim.Tape, mirror bool) {
+	i := t.Next(len(c.repos))
+	r := c.repos[i]
+	if len(r.tags) == 0 {
+		return
+	}
+	tag := r.tags[t.Next(len(r.tags))]
+	n := fmt.Sprintf("my-dep%d", i)
+	if mirror {
+		n = fmt.Sprintf("mirror-dep%d", i)
+	}
+	if c.w.Store.Peek(simapi.ObjKey{Group: PkgGK[r.kind].Group, Kind: r.kind, Name: n}) != nil {
+		return
+	}
+	err := c.w.InstallPackage(r.kind, n, r.repo, tag, func(p pkgv1.Package) {
+		if mirror {
+			src := "mirror.example.org/" + r.repo + ":" + tag
+			c.w.Reg.TagMap[src] = c.w.Reg.TagMap[Registry+"/"+r.repo+":"+tag]
+			p.SetSource(src)
+		}
+	})
+	if err == nil {
+		if mirror {
+			c.w.S.Probe("mirror-of-a-dependency-installed-by-hand")
+		} else {
+			c.w.S.Probe("dependency-installed-by-hand")
+		}
 	}
 }
 
@@ -427,6 +464,30 @@ func (c *c17) judgeResolverWrite(e *simapi.LogEntry) {
 	if len(parents) > 1 {
 		w.S.Probe("resolver-write-judged/" + e.Verb + "/several-parents")
 	}
+	if e.Verb == "create" && w.Opts.Upgrades {
+		// with upgrades on the resolver looks for an installed package providing
+		// the dependency first: it creates one only after a list that succeeded
+		// and showed none
+		var list *simapi.LogEntry
+		for i := e.Seq - 1; i >= 0; i-- {
+			if l := w.Store.Log[i]; l.TaskID == e.TaskID && l.Verb == "list" && strings.TrimSuffix(l.Key.Kind, "List") == e.Key.Kind {
+				list = l
+				break
+			}
+		}
+		if list == nil || list.Err != nil || list.Injected != "" {
+			w.S.Violate("C17/installed-without-knowing-what-is-installed", fmt.Sprintf("resolver created package %s (%s) although it had not managed to list the installed %ss", e.Key.Name, src, e.Key.Kind))
+			return
+		}
+		for _, it := range list.Items {
+			isrc, _, _ := unstructured.NestedString(it, "spec", "package")
+			if iref, err := name.ParseReference(isrc, name.WithDefaultRegistry(Registry)); err == nil && iref.Context().Name() == repo {
+				w.S.Violate("C17/installed-second-package-for-source", fmt.Sprintf("resolver created package %s (%s) although it had listed package %s, installed from %s", e.Key.Name, src, (&unstructured.Unstructured{Object: it}).GetName(), isrc))
+				return
+			}
+		}
+		w.S.Probe("resolver-create-after-list-judged")
+	}
 	if e.Verb == "create" {
 		ok := false
 		var why []string
@@ -466,6 +527,10 @@ func (c *c17) judgeResolverWrite(e *simapi.LogEntry) {
 	}
 	bref, err := name.ParseReference(before, name.WithDefaultRegistry(Registry))
 	if err != nil {
+		return
+	}
+	if bref.Context().Name() != repo {
+		w.S.Violate("C17/moved-unrelated-package", fmt.Sprintf("resolver rewrote package %s from %s to %s: another repository", e.Key.Name, before, src))
 		return
 	}
 	var semcons []string
